@@ -8,7 +8,8 @@
 (* that hold saved state), scope heap + current scope, context, content    *)
 (* closure, writer + try buffers, output, return register, pending error.  *)
 (* Go's panic/defer semantics is the explicit Unwind action: frames whose  *)
-(* restore is `defer`red run it, the others are popped without it.         *)
+(* restore is `defer`red run it (deferred scope releases restore the scope   *)
+(* saved at entry), the others are popped without it.                      *)
 (*                                                                         *)
 (* Programs are data (uniform records so TLC can compare them); a *case*   *)
 (* is a template set plus a sequence of Execute calls.                     *)
@@ -215,7 +216,7 @@ DoPrint(s) ==
 DoLet(s) ==
   LET ns == IF F.opened THEN [heap |-> heap, cur |-> cur] ELSE NewScope(heap, cur)
       r  == Eval(s.e, ns.heap, ns.cur, ctx)
-      fo == [frames EXCEPT ![Top].opened = TRUE]
+      fo == IF F.opened THEN frames ELSE [frames EXCEPT ![Top].opened = TRUE, ![Top].sc = cur]
   IN IF ~r.ok
      THEN /\ Raise(r.class, s.id) /\ heap' = ns.heap /\ cur' = ns.cur /\ frames' = fo
           /\ UNCHANGED <<ctx, contents, content, bufs, writer, out, rv>>
@@ -258,7 +259,7 @@ IfExit ==
 
 \* range. s.f = form: "none" | "k" | "kv"; s.n, s.n2 variable names; s.f2 (in e2.a): ":=" or "="
 \* collection: ListE(kind, vs), kind in slice | map | chan | ints | custom (index-less) | nil | bad
-ProvidesIndex(kind) == kind \in {"slice", "map", "ints", "customidx"}
+ProvidesIndex(kind) == kind \in {"slice", "islice", "array", "map", "ints", "customidx"}
 DoRange(s) ==
   LET coll  == s.e
       isSet == s.f # "none"
@@ -456,7 +457,7 @@ DoInclude(s) ==
   ELSE LET ns == NewScope(heap, cur)
            h2 == [ns.heap EXCEPT ![ns.cur].blocks = s.n]
            cx == IF s.e.k = "none" THEN [ok |-> TRUE, v |-> ctx, class |-> ""] ELSE Eval(s.e, h2, ns.cur, ctx)
-           fi == [Fr("include", <<>>, s) EXCEPT !.cx = ctx, !.hascx = (s.e.k # "none")]
+           fi == [Fr("include", <<>>, s) EXCEPT !.cx = ctx, !.hascx = (s.e.k # "none"), !.sc = cur]
        IN /\ heap' = h2 /\ cur' = ns.cur
           /\ IF ~cx.ok
              THEN Raise(cx.class, s.id) /\ frames' = Append(frames, fi) /\ UNCHANGED <<ctx, rv>>
@@ -467,7 +468,7 @@ DoInclude(s) ==
 
 IncludeExit ==
   /\ ctx' = IF F.hascx THEN F.cx ELSE ctx
-  /\ cur' = heap[cur].parent
+  /\ cur' = F.sc
   /\ frames' = Resume(Pop(frames), rv, TRUE)
   /\ UNCHANGED <<heap, contents, content, bufs, writer, out, rv, err, mode>>
 
@@ -475,7 +476,7 @@ IncludeExit ==
 DoExec(s) ==
   LET isLet == s.op = "execlet"
       ls == IF isLet /\ ~F.opened THEN NewScope(heap, cur) ELSE [heap |-> heap, cur |-> cur]
-      fo == IF isLet THEN [frames EXCEPT ![Top].opened = TRUE] ELSE frames
+      fo == IF isLet /\ ~F.opened THEN [frames EXCEPT ![Top].opened = TRUE, ![Top].sc = cur] ELSE frames
   IN IF ~HasTmpl(s.n2)
      THEN IF isLet
           THEN /\ Raise("template", s.id) /\ heap' = ls.heap /\ cur' = ls.cur /\ frames' = fo
@@ -485,7 +486,7 @@ DoExec(s) ==
               h2 == [ns.heap EXCEPT ![ns.cur].blocks = s.n2]
               cx == IF s.e.k = "none" THEN [ok |-> TRUE, v |-> ctx, class |-> ""] ELSE Eval(s.e, ls.heap, ls.cur, ctx)
               root == IF ExecFull THEN RootOf(s.n2) ELSE OneUp(s.n2)
-              fe == [Fr("exec", <<>>, s) EXCEPT !.cx = ctx, !.hascx = (s.e.k # "none"), !.wr = writer, !.gsc = ls.cur]
+              fe == [Fr("exec", <<>>, s) EXCEPT !.cx = ctx, !.hascx = (s.e.k # "none"), !.wr = writer, !.gsc = ls.cur, !.sc = ls.cur]
           IN IF ~cx.ok
              THEN /\ Raise(cx.class, s.id) /\ heap' = ls.heap /\ cur' = ls.cur /\ frames' = fo
                   /\ UNCHANGED <<ctx, contents, content, bufs, writer, out, rv>>
@@ -497,7 +498,7 @@ DoExec(s) ==
 
 ExecExit ==
   LET s == F.st
-      c1 == heap[cur].parent
+      c1 == F.sc
   IN /\ ctx' = IF F.hascx THEN F.cx ELSE ctx
      /\ writer' = F.wr
      /\ cur' = c1
@@ -560,7 +561,7 @@ Exec(s) ==
 
 \* a list ran off its end: its lazily opened scope is released (by defer)
 ListExit ==
-  /\ cur' = IF F.opened THEN heap[cur].parent ELSE cur
+  /\ cur' = IF F.opened THEN F.sc ELSE cur
   /\ rv' = F.ret
   /\ frames' = Pop(frames)
   /\ UNCHANGED <<heap, ctx, contents, content, bufs, writer, out, err, mode>>
@@ -596,7 +597,7 @@ Unwind ==
             /\ mode' = "ended" /\ frames' = <<>>
             /\ UNCHANGED <<heap, cur, ctx, contents, content, bufs, writer, out, rv, err>>
        [] F.k = "list" ->
-            /\ cur' = IF F.opened THEN heap[cur].parent ELSE cur
+            /\ cur' = IF F.opened THEN F.sc ELSE cur
             /\ frames' = Pop(frames)
             /\ UNCHANGED <<heap, ctx, contents, content, bufs, writer, out, rv, err, mode>>
        [] F.k \in {"if", "range", "yield", "content", "catch"} ->
@@ -604,13 +605,13 @@ Unwind ==
             /\ UNCHANGED <<heap, cur, ctx, contents, content, bufs, writer, out, rv, err, mode>>
        [] F.k = "include" ->
             /\ ctx' = IF F.hascx THEN F.cx ELSE ctx
-            /\ cur' = heap[cur].parent
+            /\ cur' = F.sc
             /\ frames' = Pop(frames)
             /\ UNCHANGED <<heap, contents, content, bufs, writer, out, rv, err, mode>>
        [] F.k = "exec" ->
             /\ ctx' = IF F.hascx THEN F.cx ELSE ctx
             /\ writer' = F.wr
-            /\ cur' = heap[cur].parent
+            /\ cur' = F.sc
             /\ frames' = Pop(frames)
             /\ UNCHANGED <<heap, contents, content, bufs, out, rv, err, mode>>
        [] F.k = "try" -> TryCatch
